@@ -171,6 +171,12 @@ def check_case(case, ctx):
     if type(envm.pep.wrapper).__name__ != "MosekWrapper":
         from vf.core import HarnessError
         raise HarnessError("the mosek side did not run MosekWrapper")
+    if getattr(task, "cvxpy_status", None) in ("infeasible", "unbounded"):
+        # a clean certificate of infeasibility / unboundedness for the task MosekWrapper built, while the cvxpy back-end solved
+        # the same model to optimality: the two back-ends were not given the same problem
+        ctx.fail("mosek:task-%s-on-a-model-the-cvxpy-side-solves" % task.cvxpy_status,
+                 "cvxpy back-end returns %r (optimal), the task built by the MOSEK back-end is %s" % (resc, task.cvxpy_status))
+        return
     if excm is not None:
         if getattr(task, "cvxpy_status", "optimal") not in ("optimal",):
             ctx.label("inconclusive:mosek-side-heuristic-solver")
